@@ -90,7 +90,7 @@ theorem print_value_bytes (c : Ctx) (name b : Bytes) (hb : b ≠ []) (hn : split
     (hg : getVar c.vars name = some (.bytes b)) (hq : c.chQB = false) :
     evalPrint c name [] = ({ c with err := none }, .text b) := by
   have hbe : b.isEmpty = false := by cases b <;> simp_all
-  simp [evalPrint, Ctx.get, getCore, hq, getChunks, hn, hg, hbe, runMods, Val.isNilOrEmptyStr, Val.text]
+  simp [evalPrint, Ctx.get, getCore, hq, getChunks, getChunksErr, hn, hg, hbe, runMods, Val.isNilOrEmptyStr, Val.text]
 
 /-- … and `SetBytes` then print gives back the bytes set. -/
 theorem setBytes_then_print (c : Ctx) (name b : Bytes) (hb : b ≠ []) (hn : splitDots name = [name]) (hq : c.chQB = false) :
